@@ -15,6 +15,13 @@ with verbose=True (output captured), through the deprecated alias updateFile wit
 called directly (download_file / downloadFile); the index laid out differently (unknown extra fields, the three fields in
 another order, two paragraphs); the repository served over HTTP by a loopback server instead of file://; and a second
 call after every successful one (the local file is current and has to stay so, nothing left behind).
+
+Beyond the small scope (bounds()["beyond_the_small_scope"]): histories of 16-20 and 33 versions with a repository fault at EVERY
+position from EVERY start state (the local file must keep its old content or reach the published one, never an intermediate
+one), a ladder over the chain length (2..41 ... 258 versions) and over the lines per file (1..40 ... 5000), and files / patches
+of more than 64 KiB compressed made of 64-byte lines with 2-, 3- and 4-byte characters aligned so that every 8 KiB / 64 KiB
+boundary of the byte stream falls on a line end, a newline or inside a character.  Signatures start with chain/, ladder/ or size/;
+the inputs are regenerated from the compact description in the case.
 """
 import builtins
 import contextlib
@@ -62,7 +69,33 @@ def bounds(tier):
                                     % ("the 2-version and the special histories" if tier == "quick" else "every route history"),
                        "second_call": "after every successful call of the routes family that had no repository fault or an "
                                       "unusable index: the same call again"},
-            "hash": "SHA1 (SHA256 configuration explored only when the interpreter provides _sha256)"}
+            "hash": "SHA1 (SHA256 configuration explored only when the interpreter provides _sha256)",
+            "beyond_the_small_scope": {
+                "thinned out in the quick tier": "none" if tier != "quick" else (
+                    "long chains: a garbled patch at every position from EVERY start state; a missing / truncated / text-garbled "
+                    "patch from starts {0, the fault's position, last but one}; index faults from {0, middle, current, foreign, "
+                    "absent}.  Chain-length ladder: {no fault, last patch garbled, no full file}, above 66 versions from start 0 only, without "
+                    "64, 128, 256 and 258 versions.  Big "
+                    "files: repository faults {none, no index, no full file, patch 0 garbled / truncated, patch 1 missing}, "
+                    "file-system faults from starts 0 and absent.  Lines ladder above 1025 lines: {no fault, no full file}"),
+                "long chains": "histories of %r versions (each step one small edit: change / append / delete first / insert at top): "
+                               "EVERY start state (each vi, foreign, absent) x {no fault, every index fault, a garbled and a missing "
+                               "patch at EVERY position, a truncated / text-garbled patch at positions 0, 14, 15, 16 and the last}; "
+                               "every discovered file-system fault point from starts 0, 1, the middle and the last but one" % CHAIN_FULL,
+                "chain-length ladder": "every number of versions in 2..41 and %r: starts {0, middle, last but one} x {no fault, the last "
+                                       "patch garbled / missing, the middle patch garbled, no full file}; open / close / rename faults from start 0"
+                                       % [n for n in CHAIN_LADDER if n > 41],
+                "lines-per-file ladder": "files of every n in 1..40 and %r lines, 4 versions (last line changed + one appended, first "
+                                         "line deleted, middle line changed): starts {each vi, absent} x {no fault, patch 0 garbled, patch "
+                                         "2 truncated, no index, no full file (so that only the patches can lead to the content)}; open / first write / last write / close / rename faults from start 0"
+                                         % [n for n in LINES_LADDER if n > 40],
+                "big files": "4 versions of %d lines of 64 UTF-8 bytes (hexadecimal text + one 2-, 3- or 4-byte character + newline; "
+                             "the full file is ~115 KiB and the first patch ~105 KiB *compressed*), the first line prolonged by "
+                             "each of %r bytes so that every 8 KiB and 64 KiB boundary of the byte stream falls at the line end, on "
+                             "the newline, inside the multi-byte character or in front of it; every start state x {no fault, no "
+                             "index, no full file, wrong Current, each patch garbled / truncated / missing}; file-system faults from "
+                             "starts 0, 2 and absent: open, close, rename and the writes number %r and the last two" % (
+                                 BIG_LINES, BIG_SHIFTS, BIG_WRITE_POINTS)}}
 
 
 def assumptions():
@@ -76,6 +109,11 @@ def assumptions():
             "index layouts: fields the function does not know are ignored, the order of the fields and a split into "
             "several paragraphs do not matter (the function loops over all paragraphs and fields); an index that carries "
             "SHA256 fields as well cannot be used on this interpreter (no _sha256) and is not generated",
+            "beyond the small scope: the long-chain and big-file inputs are generated from a compact description in the case "
+            "(number of versions, line set, shift); the scripts of the big files are written directly from the hunks (an LCS "
+            "diff of 3200-line files is not needed to know them) and validated by the model's ed interpreter; the same safety / "
+            "convergence judgement as in the small scope applies; of the ~3200 write fault points of a big file a fixed set "
+            "around the 64 KiB multiples and the ends is injected (stated in bounds) - every other family is complete",
             "left out: a pathlib.Path as local (documented as str; local + '.new' raises TypeError, local intact), a stale "
             "local.new present before the call (the up-to-date path does not touch it; the statement speaks of files the "
             "call creates)", "python 3.12 has no _sha256: the module's own "
@@ -114,7 +152,7 @@ def layout_index(layout, f_cur, f_hist, f_pat):
     return f_cur + f_hist + f_pat
 
 
-def mkrepo(d, versions, rfault, algo, layout="plain"):
+def mkrepo(d, versions, rfault, algo, layout="plain", scripts=None):
     H = sha1 if algo == "SHA1" else sha256
     cur = versions[-1]
     if rfault != ("nofull",):
@@ -122,7 +160,7 @@ def mkrepo(d, versions, rfault, algo, layout="plain"):
     os.mkdir(os.path.join(d, "Packages.diff"))
     hist, pat = [], []
     for i in range(len(versions) - 1):
-        s = edscript.diff(versions[i], versions[i + 1])
+        s = scripts[i] if scripts else edscript.diff(versions[i], versions[i + 1])
         name = "p%d" % i
         body = "".join(s)
         if rfault == ("garble", i):
@@ -253,9 +291,9 @@ def http_base():
 class Repo(object):
     """a published repository in a scratch directory (update_file never writes to it)"""
 
-    def __init__(self, versions, rfault, algo, layout="plain"):
+    def __init__(self, versions, rfault, algo, layout="plain", scripts=None):
         self.dir = tempfile.mkdtemp(prefix="verif-c19r-", dir=SCRATCH)
-        mkrepo(self.dir, versions, rfault, algo, layout)
+        mkrepo(self.dir, versions, rfault, algo, layout, scripts)
 
     def url(self, transport):
         if transport == "http":
@@ -294,7 +332,7 @@ def read_local(path):
 
 
 def execute(versions, start, rfault, fsfail, algo="SHA1", repo_obj=None, entry="update_file", layout="plain",
-            transport="file", again=False):
+            transport="file", again=False, scripts=None):
     """-> dict(exc, result, before, after, leftovers, tmp_leftovers, env)"""
     import debian.debian_support as ds
     d = tempfile.mkdtemp(prefix="verif-c19-", dir=SCRATCH)
@@ -307,7 +345,7 @@ def execute(versions, start, rfault, fsfail, algo="SHA1", repo_obj=None, entry="
         for x in (work, tmpd):
             os.mkdir(x)
         if repo_obj is None:
-            own = repo_obj = Repo(versions, rfault, algo, layout)
+            own = repo_obj = Repo(versions, rfault, algo, layout, scripts)
         url = repo_obj.url(transport)
         local = os.path.join(work, "local")
         if start != "absent":
@@ -472,14 +510,16 @@ def route_tag(case):
 
 
 def run_case(case, repo_obj=None):
-    versions = [list(v) for v in case["versions"]]
+    versions, scripts = expand(case)
     rf = tuple(case["rfault"]) if case["rfault"] else None
     fs = [tuple(x) for x in case["fsfail"]]
     entry = case.get("entry", "update_file")
     res = execute(versions, case["start"], rf, fs, case.get("algo", "SHA1"), repo_obj, entry, case.get("layout", "plain"),
-                  case.get("transport", "file"), case.get("again", False))
+                  case.get("transport", "file"), case.get("again", False), scripts)
     # an injected fault the run never reached is simply a fault-free run; judge() handles it via env.fired
     tag = route_tag(case)
+    if case.get("scale"):
+        tag = {"chain": "chain/", "ladder": "ladder/chain-length/", "big": "size/", "lines": "ladder/lines-per-file/"}[case["scale"]] + tag
     return [(tag + sig, e, o) for sig, e, o in judge(versions, case["start"], rf, fs, res, entry)], res
 
 
@@ -567,10 +607,13 @@ def units(tier, seed):
     step = 8
     out = [{"lo": i, "hi": min(i + step, len(hs))} for i in range(0, len(hs), step)]
     out += [{"kind": "routes", "h": i} for i in range(len(route_histories(tier, seed)))]
+    out += scale_units(tier, seed)
     return out
 
 
 def unit_cost(u, tier):
+    if u.get("kind") == "scale":
+        return 60 if u["scale"] != "ladder" else 30
     return 5 if u.get("kind") == "routes" else 8
 
 
@@ -646,6 +689,8 @@ def algos():
 def run_unit(u, tier, seed):
     if u.get("kind") == "routes":
         return run_route_unit(u, tier, seed)
+    if u.get("kind") == "scale":
+        return run_scale_unit(u, tier, seed)
     part = core.Part()
     hs = histories(tier, seed)[u["lo"]:u["hi"]]
     bound = 1 if tier == "quick" else 2
@@ -691,6 +736,241 @@ def run_unit(u, tier, seed):
                             part.sample(case)
                 finally:
                     repo_obj.close()
+    part.transitions += part.states
+    return part
+
+
+# ---------------------------------------------------------------- beyond the small scope: long chains, big files
+
+CHAIN_FULL = [16, 17, 18, 19, 20, 33]           # versions per history; a fault at EVERY position, from EVERY start state
+CHAIN_LADDER = list(range(2, 42)) + [64, 65, 66, 101, 128, 129, 130, 256, 257, 258]     # versions = patches + 1
+BIG_LINES = 3200                                # 64-byte lines: 204 800 bytes; gzip leaves > 64 KiB of the hexadecimal text
+BIG_SHIFTS = [0, 1, 2, 3, 4, 5]
+BIG_WRITE_POINTS = [0, 1, 1022, 1023, 1024, 1025, 2047, 2048, 2049, 3071, 3072, 3073]     # + the last two; 1024 lines = 64 KiB written
+
+
+LINES_LADDER = list(range(1, 41)) + [63, 64, 65, 100, 127, 128, 129, 255, 256, 257, 999, 1000, 1001, 1025, 2500, 2501, 5000]
+
+
+def lines_versions(n, ls):
+    """files of n lines: v0 -> v1 changes the last line and appends one, v1 -> v2 deletes the first line, v2 -> v3 changes the
+    middle line (the addresses have as many digits as n has); scripts written directly from the hunks"""
+    a = LINESET(ls)[0][:-1]
+    v0 = ["%s%d\n" % (a, i) for i in range(1, n + 1)]
+    v1 = v0[:-1] + ["X\n", "Y\n"]
+    v2 = v1[1:]
+    m = len(v2) // 2
+    v3 = v2[:m] + ["M\n"] + v2[m + 1:]
+    scripts = [["%dc\n" % n, "X\n", "Y\n", ".\n"], ["1d\n"], ["%dc\n" % (m + 1), "M\n", ".\n"]]
+    return [v0, v1, v2, v3], scripts
+
+
+def chain_versions(n, ls):
+    """n versions, each step one small edit of another kind (change in the middle, append at the end, delete the first line,
+    insert at the top), every version different from every other"""
+    L = LINESET(ls)
+    cur = [L[0], L[1], L[2]]
+    out = [list(cur)]
+    for i in range(1, n):
+        kind = i % 4
+        if kind == 1:
+            cur = cur[:1] + ["v%d\n" % i] + cur[2:]
+        elif kind == 2:
+            cur = cur + ["w%d\n" % i]
+        elif kind == 3:
+            cur = cur[1:]
+        else:
+            cur = ["u%d\n" % i] + cur
+        out.append(list(cur))
+    return out
+
+
+def big_line(i, salt):
+    """64 bytes of UTF-8: hexadecimal text (does not compress below half), one 2-, 3- or 4-byte character, a newline"""
+    ch = "é€\U0001d11e"[(i + i // 1024) % 3]      # lines 1023 / 2047 / 3071 end at 64 / 128 / 192 KiB: 2-, 4- and 3-byte character
+    h = hashlib.sha1(b"%d/%d" % (i, salt)).hexdigest() + hashlib.sha1(b"%d/%d/x" % (i, salt)).hexdigest()
+    return h[:63 - len(ch.encode("utf-8"))] + ch + "\n"
+
+
+def big_versions(shift, nlines=BIG_LINES):
+    """-> (versions, scripts): v0 -> v1 replaces most of the file (a patch of > 64 KiB compressed), v1 -> v2 and v2 -> v3 are small
+    edits near the top and the end.  The first line is `shift` bytes longer than the others, so that every 8 KiB / 64 KiB
+    boundary of the byte stream falls `shift` bytes before the end of a line: at the line end (0), on the newline (1), inside
+    the multi-byte character (2-4) or right in front of it."""
+    v0 = ["012345"[:shift] + big_line(0, 0)] + [big_line(i, 0) for i in range(1, nlines)]
+    lo, hi = 100, nlines - 100
+    v1 = v0[:lo] + [big_line(i, 1) for i in range(lo, hi + 7)] + v0[hi:]
+    v2 = v1[:3] + ["t" * 54 + "é€\U0001d11e\n"] + v1[4:-2] + v1[-1:]
+    v3 = v2 + ["end\n"]
+    hunks = [[(lo + 1, hi, v1[lo:hi + 7])], [(len(v1) - 1, len(v1) - 1, []), (4, 4, [v2[3]])], [(len(v2) + 1, len(v2), ["end\n"])]]
+    scripts = []
+    for hs in hunks:
+        s = []
+        for i, j, rep in hs:                      # already bottom-up
+            s.append("%da\n" % j if i > j else ("%d" % i if i == j else "%d,%d" % (i, j)) + ("c\n" if rep else "d\n"))
+            if rep:
+                s += list(rep) + [".\n"]
+        scripts.append(s)
+    return [v0, v1, v2, v3], scripts
+
+
+_EXPANDED = {}
+
+
+def expand(case):
+    """-> (versions, scripts or None) of a case; big inputs are generated from the compact description"""
+    sc = case.get("scale")
+    if sc is None:
+        return [list(v) for v in case["versions"]], None
+    key = (sc, case.get("n"), case.get("ls"), case.get("shift"))
+    if key not in _EXPANDED:
+        _EXPANDED.clear()
+        if sc in ("big", "lines"):
+            vs, ss = big_versions(case["shift"]) if sc == "big" else lines_versions(case["n"], case["ls"])
+            for a, b, s in zip(vs, vs[1:], ss):
+                if edscript.apply(a, s) != b:
+                    raise AssertionError("model: big script does not produce the next version")
+            _EXPANDED[key] = (vs, ss)
+        else:
+            _EXPANDED[key] = (chain_versions(case["n"], case["ls"]), None)
+    return _EXPANDED[key]
+
+
+def scale_units(tier, seed):
+    out = []
+    for n in CHAIN_FULL:
+        k = 4 if n < 30 else 8
+        out += [{"kind": "scale", "scale": "chain", "n": n, "slice": i, "of": k} for i in range(k)]
+    out.append({"kind": "scale", "scale": "ladder", "ns": [n for n in CHAIN_LADDER if n <= 41]})
+    out.append({"kind": "scale", "scale": "ladder", "ns": [n for n in CHAIN_LADDER if 41 < n <= 130]})
+    out += [{"kind": "scale", "scale": "ladder", "ns": [n]} for n in CHAIN_LADDER if n > 130]
+    out += [{"kind": "scale", "scale": "big", "shift": s} for s in BIG_SHIFTS]
+    out.append({"kind": "scale", "scale": "lines", "ns": [n for n in LINES_LADDER if n <= 129]})
+    out.append({"kind": "scale", "scale": "lines", "ns": [n for n in LINES_LADDER if 129 < n <= 1025]})
+    out += [{"kind": "scale", "scale": "lines", "ns": [n]} for n in LINES_LADDER if n > 1025]
+    return out
+
+
+def run_scale_unit(u, tier, seed):
+    part = core.Part()
+    ls = seed % 4
+
+    def one(case, repo_obj, rank, label):
+        bad, res = run_case(case, repo_obj)
+        part.evaluations += 1
+        part.traces += 1
+        part.states += 1
+        for sig, exp, obs in bad:
+            part.violation(sig, case, exp, obs, rank=rank)
+        part.outcomes["%s/%s" % (label, type(res["exc"]).__name__ if res["exc"] else "ok")] += 1
+        part.nontrivial += 1
+        return res
+
+    for algo in algos():
+        if u["scale"] == "chain":
+            n = u["n"]
+            versions = chain_versions(n, ls)
+            part.max_depth = n
+            rfaults = [None] + repo_faults(n)
+            starts = list(range(n)) + ["foreign", "absent"]
+            for ri, rf in enumerate(rfaults):
+                if ri % u["of"] != u["slice"]:
+                    continue
+                if rf is not None and rf[0] in ("truncate", "garble-text") and rf[1] not in (0, 14, 15, 16, n - 2):
+                    continue        # (garbled and missing patches stand at every position; these two at the ends and around 16)
+                repo_obj = Repo(versions, rf, algo)
+                try:
+                    for start in starts:
+                        if tier == "quick" and rf is not None and rf[0] != "garble":
+                            # quick: a garbled patch at every position from every start; the other repository faults from
+                            # the start states at the ends, at the fault and (index faults) in the middle
+                            near = (0, rf[1], n - 2) if len(rf) > 1 else (0, n // 2, n - 1, "foreign", "absent")
+                            if start not in near:
+                                continue
+                        base = {"scale": "chain", "n": n, "ls": ls, "start": start, "algo": algo, "rfault": rf}
+                        res = one(dict(base, fsfail=[]), repo_obj, n * 10, "chain-%d/%s" % (n, rf[0] if rf else "none"))
+                        part.extra["long chains: runs with a repository fault at a given position"] += 1
+                        if rf is None and start in (0, 1, n // 2, n - 2):
+                            for pt in list(res["env"].log):
+                                c2 = dict(base, fsfail=[pt])
+                                res2 = one(c2, repo_obj, n * 10 + 2, "chain-%d/fs:%s" % (n, pt[0]))
+                                part.transitions += 1
+                                if not res2["env"].fired:
+                                    raise AssertionError("fault point %r discovered by the dry run was not reached: %r" % (pt, c2))
+                finally:
+                    repo_obj.close()
+            part.sample({"scale": "chain", "n": n, "ls": ls, "start": 0, "algo": algo, "rfault": ("garble", n - 2), "fsfail": []})
+        elif u["scale"] == "lines":
+            for n in u["ns"]:
+                versions, scripts = lines_versions(n, ls)
+                for rf in (None, ("garble", 0), ("truncate", 2), ("noidx",), ("nofull",)):
+                    if tier == "quick" and n > 1025 and rf not in (None, ("nofull",)):
+                        continue
+                    repo_obj = Repo(versions, rf, algo, scripts=scripts)
+                    try:
+                        for start in (0, 1, 2, 3, "absent"):
+                            base = {"scale": "lines", "n": n, "ls": ls, "start": start, "algo": algo, "rfault": rf}
+                            res = one(dict(base, fsfail=[]), repo_obj, n, "lines/%s" % (rf[0] if rf else "none"))
+                            part.extra["lines-per-file ladder runs"] += 1
+                            if rf is None and start == 0:
+                                pts = list(res["env"].log)
+                                writes = [p for p in pts if p[0] == "write"]
+                                for pt in [p for p in pts if p[0] != "write"] + writes[:1] + writes[-1:]:
+                                    one(dict(base, fsfail=[pt]), repo_obj, n + 1, "lines/fs:%s" % pt[0])
+                                    part.transitions += 1
+                    finally:
+                        repo_obj.close()
+            part.sample({"scale": "lines", "n": u["ns"][-1], "ls": ls, "start": 0, "algo": algo, "rfault": None, "fsfail": []})
+        elif u["scale"] == "ladder":
+            for n in u["ns"]:
+                if tier == "quick" and n in (64, 128, 256, 258):
+                    continue
+                versions = chain_versions(n, ls)
+                part.max_depth = max(part.max_depth, n)
+                for rf in (None, ("garble", n - 2), ("nopatch", n - 2), ("garble", (n - 2) // 2), ("nofull",)):
+                    if tier == "quick" and rf not in (None, ("garble", n - 2), ("nofull",)):
+                        continue
+                    repo_obj = Repo(versions, rf, algo)
+                    try:
+                        for start in sorted({0, (n - 1) // 2, n - 2}):
+                            if tier == "quick" and n > 66 and start != 0:
+                                continue
+                            base = {"scale": "ladder", "n": n, "ls": ls, "start": start, "algo": algo, "rfault": rf}
+                            res = one(dict(base, fsfail=[]), repo_obj, n * 10, "ladder/%s" % (rf[0] if rf else "none"))
+                            part.extra["chain-length ladder runs"] += 1
+                            if rf is None and start == 0:
+                                for pt in [p for p in res["env"].log if p[0] in ("open-w", "rename", "close-w")]:
+                                    one(dict(base, fsfail=[pt]), repo_obj, n * 10 + 2, "ladder/fs:%s" % pt[0])
+                                    part.transitions += 1
+                    finally:
+                        repo_obj.close()
+        else:
+            shift = u["shift"]
+            versions, scripts = big_versions(shift)
+            nv = len(versions)
+            part.max_depth = nv
+            for rf in [None, ("noidx",), ("nofull",), ("wrongcurrent",)] + [(f, i) for i in range(nv - 1) for f in ("garble", "truncate", "nopatch")]:
+                if tier == "quick" and rf not in (None, ("noidx",), ("nofull",), ("garble", 0), ("truncate", 0), ("nopatch", 1)):
+                    continue
+                repo_obj = Repo(versions, rf, algo, scripts=scripts)
+                try:
+                    for start in list(range(nv)) + ["foreign", "absent"]:
+                        base = {"scale": "big", "shift": shift, "start": start, "algo": algo, "rfault": rf}
+                        res = one(dict(base, fsfail=[]), repo_obj, 1000, "big/%s" % (rf[0] if rf else "none"))
+                        part.extra["big files: runs"] += 1
+                        if rf is None and start in ((0, "absent") if tier == "quick" else (0, 2, "absent")):
+                            pts = list(res["env"].log)
+                            writes = [p for p in pts if p[0] == "write"]
+                            chosen = [p for p in pts if p[0] != "write"] + [p for p in writes if p[1] in BIG_WRITE_POINTS] + writes[-2:]
+                            for pt in sorted(set(chosen)):
+                                c2 = dict(base, fsfail=[pt])
+                                res2 = one(c2, repo_obj, 1002, "big/fs:%s" % pt[0])
+                                part.transitions += 1
+                                if not res2["env"].fired:
+                                    raise AssertionError("fault point %r discovered by the dry run was not reached: %r" % (pt, c2))
+                finally:
+                    repo_obj.close()
+            part.sample({"scale": "big", "shift": shift, "start": 0, "algo": algo, "rfault": None, "fsfail": []})
     part.transitions += part.states
     return part
 
